@@ -455,7 +455,11 @@ def _redis_case_st():
     return st.fixed_dictionaries({
         'part': st.just('redis'), 'aio': st.booleans(),
         'segments': st.lists(seg, min_size=1, max_size=6),
-        'publish': st.lists(st.booleans(), min_size=2, max_size=2)})
+        'publish': st.lists(st.booleans(), min_size=2, max_size=2),
+        # while the listener sits out its k-th back-off, the application
+        # publishes something, the publish fails once and reconnects
+        'publish_during_backoff': st.one_of(st.none(), st.none(),
+                                            st.integers(0, 3))})
 
 
 _main_strategy = strategy
@@ -509,13 +513,25 @@ def _check_redis(case):
     class PubSub:
         def __init__(self, first):
             self.first = first
+            self.subscribed = False
 
         def _subscribe(self, ch):
             if not self.first and state['sub_fail_left'] > 0:
                 state['sub_fail_left'] -= 1
                 raise RedisError('cannot subscribe')
+            self.subscribed = True
 
         def _listen_items(self):
+            if not self.subscribed:
+                # like redis-py: nothing to listen to, the iterator ends
+                state['unsub_listens'] = state.get('unsub_listens', 0) + 1
+                if state['unsub_listens'] > 20:
+                    raise core.Abort(
+                        'redis-listener-on-unsubscribed-connection',
+                        'listen() called %d times on a connection that '
+                        'never subscribed to the channel'
+                        % state['unsub_listens'])
+                return
             s = next_segment()
             for kind in s['msgs']:
                 state['n'] += 1
@@ -562,6 +578,11 @@ def _check_redis(case):
             return PubSub(self.is_first)
 
         def _publish(self, ch, data):
+            if state.get('fail_next_publish'):
+                state['fail_next_publish'] = False
+                raise RedisError('cannot publish')
+            if state.get('side_publish'):
+                return 1
             i = state['publish_calls']
             state['publish_calls'] += 1
             if i < len(case['publish']) and case['publish'][i]:
@@ -578,6 +599,7 @@ def _check_redis(case):
         Redis=Redis, exceptions=types.SimpleNamespace(RedisError=RedisError))
     got = []
     stopped = [False]
+    labels_extra = {}
     if aio:
         import socketio.async_redis_manager as M
         from ..detloop import DetLoop
@@ -603,6 +625,13 @@ def _check_redis(case):
                 if nt is None:
                     break
                 state['sleeps'].append(round(nt - loop.time(), 6))
+                if case.get('publish_during_backoff') == len(
+                        state['sleeps']) - 1:
+                    state['fail_next_publish'] = True
+                    state['side_publish'] = True
+                    loop.run(mgr._publish({'method': 'emit'}))
+                    state['side_publish'] = False
+                    labels_extra['publish_failed_during_backoff'] = True
                 loop.advance()
             if not t.done():
                 raise Violation('redis-listen-stuck', '')
@@ -617,8 +646,17 @@ def _check_redis(case):
         import socketio.redis_manager as M
         saved = (M.redis, M.time)
         M.redis = fake
-        M.time = types.SimpleNamespace(
-            sleep=lambda s: state['sleeps'].append(s), time=saved[1].time)
+        def fake_sleep(secs):
+            state['sleeps'].append(secs)
+            if case.get('publish_during_backoff') == len(
+                    state['sleeps']) - 1:
+                # (another thread of the application, during the sleep)
+                state['fail_next_publish'] = True
+                state['side_publish'] = True
+                mgr._publish({'method': 'emit'})
+                state['side_publish'] = False
+                labels_extra['publish_failed_during_backoff'] = True
+        M.time = types.SimpleNamespace(sleep=fake_sleep, time=saved[1].time)
         try:
             mgr = M.RedisManager('redis://', channel='socketio')
             try:
@@ -662,8 +700,8 @@ def _check_redis(case):
     if calls != want_calls:
         raise Violation('redis-publish-retry', '%d calls, expected %d'
                         % (calls, want_calls))
-    return {'part': 'redis', 'aio': aio,
-            'nontrivial': len([s for s in segs if s['end'] == 'error']) >= 2}
+    return dict(labels_extra, part='redis', aio=aio, nontrivial=len(
+        [s for s in segs if s['end'] == 'error']) >= 2 or bool(labels_extra))
 
 
 # ==========================================================================
